@@ -61,7 +61,15 @@ func H_C13_idem() {
 // history equals the validator's (already settled) history and a claim pays nothing.
 func H_C13_noretro_delegate() {
 	id := "C13.noretro.delegate"
-	st := Build([]Pos{{1, 0, 0}}, Opts{Rewards: true, BigPool: true, Hints: true})
+	o := Opts{Rewards: true, BigPool: true, Hints: true}
+	ps := []Pos{{1, 0, 0}}
+	if nd.Choice("first_of_asset", 2) == 1 {
+		// the validator's stake is in ANOTHER asset: the newcomer's delegation is the first stake of
+		// its asset there (the pending rewards still belong to the earlier stakers)
+		ps = []Pos{{1, 0, 1}}
+		o.NDenoms = 2
+	}
+	st := Build(ps, o)
 	e := st.E
 	amt := nd.IntRange("amt", "1", Pow30)
 	var err error
